@@ -532,6 +532,7 @@ func (c *Context) Sqrt(d, x *Decimal) (Condition, error) {
 	// operation and are not subject to the caller's exponent range and traps.
 	nc := BaseContext.WithPrecision(workp)
 	nc.Rounding = RoundHalfEven
+	nc.Traps = 0
 	ed := MakeErrDecimal(nc)
 	// Set approx to the first guess, based on whether e (the exponent part of x)
 	// is odd or even.
@@ -681,6 +682,7 @@ func (c *Context) Cbrt(d, x *Decimal) (Condition, error) {
 	z.Set(&ax)
 	neg := x.Negative
 	nc := BaseContext.WithPrecision(c.Precision*2 + 2)
+	nc.Traps = 0
 	ed := MakeErrDecimal(nc)
 	exp8 := 0
 
@@ -901,6 +903,10 @@ func (c *Context) Ln(d, x *Decimal) (Condition, error) {
 	// subject to the caller's exponent range and traps.
 	nc := BaseContext.WithPrecision(p)
 	nc.Rounding = RoundHalfEven
+	// A term of a series that underflows the package limits is simply
+	// negligible, and a difference that overflows them is only looked at for its
+	// size: neither is a failure of the operation.
+	nc.Traps = 0
 	ed := MakeErrDecimal(nc)
 
 	var tmp1, tmp2, tmp3, tmp4, z, resAdjust Decimal
@@ -1066,6 +1072,7 @@ func (c *Context) Log10(d, x *Decimal) (Condition, error) {
 
 	nc := BaseContext.WithPrecision(c.Precision + 2)
 	nc.Rounding = RoundHalfEven
+	nc.Traps = 0
 	var z Decimal
 	_, err := nc.Ln(&z, x)
 	if err != nil {
@@ -1162,6 +1169,7 @@ func (c *Context) Exp(d, x *Decimal) (Condition, error) {
 	// subject to the caller's exponent range and traps.
 	nc := BaseContext.WithPrecision(cp)
 	nc.Rounding = RoundHalfEven
+	nc.Traps = 0
 	p := int64(cp) + int64(t) + 2
 	// The series is evaluated with p digits and r is the dividend of each of
 	// its steps: digits beyond the guard digits only cost time.
